@@ -55,6 +55,8 @@ def layout(x, kind):
     raise ValueError(kind)
 
 
+POISON = [3.5]
+POISON_SIZES = [k for k in range(1, 200)] + [k for k in range(200, 4000, 7)] + [4096, 8192, 16384, 20000, 40000]
 WRITABLE = [False]     # every third round hands over ordinary writable arrays (the mutation sanitizer works on digests either way)
 
 
@@ -200,6 +202,19 @@ def build_table():
         return (C.phase_align, (ro(p), ro(np.sin(p))), dict(npoints=12), True)
     T['phase_align'] = pal
 
+    def pal_looper(r, s):
+        # the cycles argument as the iterator a container hands out for a selection of its cycles
+        p = gens.synthetic_phase(r, ncycles=int(r.integers(8, 16)))
+        with quiet():
+            cy = C.Cycles(ro(p), compute_timings=True)
+        thr = int(np.median(cy.metrics['duration']))
+
+        def run(ph, vals):
+            with quiet():
+                return C.phase_align(ph, vals, cycles=cy.iterate(conditions='duration>%d' % thr), npoints=int(12))
+        return (run, (ro(p), ro(np.sin(p) + .1 * r.standard_normal(len(p)))), {}, True)
+    T['phase_align:conditions_looper'] = pal_looper
+
     def bbp(r, s):
         p = r.uniform(0, 2 * np.pi, 200)
         return (C.bin_by_phase, (ro(p), ro(r.standard_normal((200, 2)))), dict(nbins=8), True)
@@ -340,6 +355,11 @@ def run_entry(ctx, name, build, rng, shared, round_seed):
     shared_before = deep_digest(shared)
 
     def call():
+        # heap poisoning: freshly freed memory of many sizes holds a value that changes from call to call, so that a result read
+        # from uninitialised memory (np.empty not completely filled) differs between the call and its repetition
+        POISON[0] += 1.75
+        junk = [np.full(k, POISON[0]) for k in POISON_SIZES]
+        del junk
         if det == 'seeded':
             st = np.random.get_state()
             np.random.seed(round_seed)
